@@ -10,6 +10,16 @@ then produces the real iteration order for that placement: nothing is abstracted
 hashing is left alone (ints hash to themselves; strings are covered by enumerated PYTHONHASHSEEDs in child
 processes).
 
+Corpus: every method of the shipped DEX files (DEXES) and a GENERATED DEX ("generated", built in memory with
+gen/dalvik + gen/dexgen): the structured tier-C programs of checks/c21.py (ifs, short circuits, loops, switches;
+quick catalogue, 729 methods) and a nested-loop family: every nesting of two loops over the kinds {while, do-while,
+while(true)+breaks, two back edges (continue), loop-and-a-half} x extra back edges from inside the inner loop to
+the OUTER header {none, from a conditional block, from a statement block, both} x break out of both loops {0,1}
+(200 methods).  Shipped code has hardly any outer header with several back edges leaving the inner interval, which
+is where Interval.compute_end / the derived sequence depend on node order.  Generated methods get the global
+family, the hash seeds and EVERY transposition (tier-C in quick: one program per skeleton; its siblings differ only
+in the comparison operator).
+
 Parts (all deciding steps are complete enumerations of the stated spaces):
   G  every class of every corpus DEX: DvClass(...).process() under the default assignment h(k)=k and under every
      member of the global FAMILY; class text and every method text must be byte-identical to the default run;
@@ -68,7 +78,7 @@ MANIFEST = {
                  "enumerated hash seeds in child processes, exhaustive ordered-pair history search",
     "text": "The only hidden nondeterminism of the DAD decompiler - address order of sets of Node/Interval/IRForm "
             "objects - is put under the explorer's control by installing __hash__ on these classes; every method of "
-            "the shipped DEX files is decompiled under the default assignment, a family of global permutations and "
+            "the shipped DEX files and of a generated corpus (C21 tier-C programs + 200 nested-loop shapes) is decompiled under the default assignment, a family of global permutations and "
             "every single transposition of the objects it really hashes, under PYTHONHASHSEED 0..7/31, and after "
             "every other corpus method (ordered pairs); the text must be byte-identical.  Complete for the stated "
             "deviation bound; every explored order is one CPython can really produce.",
@@ -79,6 +89,8 @@ MANIFEST = {
 DEXES = ["Test.dex", "AnalysisTest.dex", "ExceptionHandling.dex", "FillArrays.dex", "InterfaceCls.dex",
          "StringTests.dex", "FieldsTest.dex", "classes.dex", "Annotation_classes.dex", "hello-world.apk"]
 HIST_DEXES = DEXES[:8]            # history corpus is drawn from the small files and classes.dex
+GEN = "generated"                 # generated corpus: C21's structured tier-C programs + the nested-loop family
+CORPORA = DEXES + [GEN]
 M24 = (1 << 24) - 1
 T_MAX_QUICK = 16                  # quick: transpositions for methods with <= this many hashed objects
 T_MAX_THOROUGH = 48
@@ -217,19 +229,156 @@ def _quiet():
         pass
 
 
+# ------------------------------------------------------------------ generated corpus
+NEST_KINDS = ["while", "do", "forever", "cont2", "half"]
+NEST_EXTRA = ["", "C", "S", "CS"]      # extra back edges to the OUTER header from inside the inner loop:
+#                                                    C = straight from a conditional block, S = from a statement block
+
+
+def _nested_body(ko, ki, extra, brk):
+    """Two nested loops.  locals v0 r, v1 i, v2 n, v3 j, v4 m, v5 tmp; parameters v6 a, v7 b.
+    kinds:  while    top: if (exit) ; B ; goto top                      (latch = statement block)
+            do       top: B ; if (again) goto top                       (latch = conditional block)
+            forever  top: B ; if (c1) break ; B' ; if (c2) break ; B'' ; goto top      (while(true) + breaks)
+            cont2    top: if (exit) ; t ; if (t) goto top ; B ; goto top   (two back edges: 'continue')
+            half     top: B ; if (c) break ; B' ; goto top              (loop and a half)
+    extra/brk: inside the inner loop body: back edges to the outer header ('continue outer'), break out of both."""
+    from gen import dalvik as D
+
+    def loop(s, kind, cnt, lim, top, out, body):
+        def step():
+            s.ins("add-int/lit8", cnt, cnt, 1)
+        s.label(top)
+        if kind == "while":
+            s.ins("if-ge", cnt, lim, out)
+            body()
+            step()
+            s.ins("goto", top)
+        elif kind == "do":
+            body()
+            step()
+            s.ins("if-lt", cnt, lim, top)
+        elif kind == "forever":
+            body()
+            s.ins("if-ge", cnt, lim, out)
+            s.ins("mul-int/lit8", 0, 0, 3)
+            step()
+            s.ins("if-gt", cnt, lim, out)
+            s.ins("xor-int/2addr", 0, cnt)
+            s.ins("goto", top)
+        elif kind == "cont2":
+            s.ins("if-ge", cnt, lim, out)
+            s.ins("and-int/lit8", 5, cnt, 1)
+            step()
+            s.ins("if-eqz", 5, top)
+            body()
+            s.ins("goto", top)
+        elif kind == "half":
+            body()
+            s.ins("if-ge", cnt, lim, out)
+            step()
+            s.ins("xor-int/2addr", 0, 6)
+            s.ins("goto", top)
+        else:
+            raise AssertionError(kind)
+        s.label(out)
+
+    def build(s):
+        Lo, Lox, Li, Lix = D.Label("o"), D.Label("ox"), D.Label("i"), D.Label("ix")
+
+        def inner_body():
+            s.ins("mul-int/lit8", 0, 0, 31)
+            s.ins("add-int/2addr", 0, 3)
+            for k, e in enumerate(extra):
+                s.ins("and-int/lit8", 5, 0, 1 << k)
+                if e == "C":
+                    s.ins("if-nez", 5, Lo)
+                else:
+                    Ls = D.Label()
+                    s.ins("if-eqz", 5, Ls)
+                    s.ins("add-int/lit8", 0, 0, 7 + k)
+                    s.ins("goto", Lo)
+                    s.label(Ls)
+            if brk:
+                s.ins("if-gt", 0, 7, Lox)
+
+        def outer_body():
+            s.ins("const/4", 3, 0)
+            loop(s, ki, 3, 4, Li, Lix, inner_body)
+            s.ins("add-int/2addr", 0, 1)
+
+        s.ins("const/4", 0, 1)
+        s.ins("and-int/lit8", 2, 6, 3)
+        s.ins("and-int/lit8", 4, 7, 3)
+        s.ins("const/4", 1, 0)
+        loop(s, ko, 1, 2, Lo, Lox, outer_body)
+        s.ins("return", 0)
+    return build
+
+
+_GEN = {}
+
+
+def gen_programs():
+    """-> [(method name, class of program, registers, ins, code bytes)]; deterministic"""
+    if "p" not in _GEN:
+        from checks import c21
+        from gen import dalvik as D
+        out, seen = [], set()
+        for p in c21.tier_c(False):
+            assert p.params == "II" or p.params == "JJ" or len(p.params) <= 2, p.pid
+            rep = p.key not in seen          # first program of every skeleton: gets the transpositions as well
+            seen.add(p.key)
+            out.append((("cr_" if rep else "c_") + re.sub(r"\W", "_", p.pid[2:]), "tierC", p.params, p.ret, p.regs,
+                        p.ins, p.code))
+        for ko in NEST_KINDS:
+            for ki in NEST_KINDS:
+                for ex in NEST_EXTRA:
+                    for brk in (0, 1):
+                        asm = D.Asm()
+                        _nested_body(ko, ki, ex, brk)(asm)
+                        code, _ = asm.assemble()
+                        out.append(("n_%s_%s_x%s_b%d" % (ko, ki, ex, brk), "nested", "II", "I", 8, 2, code))
+        assert len({x[0] for x in out}) == len(out)
+        _GEN["p"] = out
+    return _GEN["p"]
+
+
+def gen_dex():
+    if "dex" not in _GEN:
+        from gen import dexgen as G
+        classes, groups = [], {}
+        for x in gen_programs():
+            groups.setdefault(x[1], []).append(x)
+        for fam in sorted(groups):
+            lst = groups[fam]
+            for g in range(0, len(lst), 25):
+                ms = [G.Method(name, ret, tuple(params), G.ACC_PUBLIC | G.ACC_STATIC,
+                               G.Code(registers=regs, ins=ins, outs=0, insns=code))
+                      for name, _, params, ret, regs, ins, code in lst[g:g + 25]]
+                classes.append(G.Class("Lgen/%s%02d;" % (fam, g // 25), dmethods=ms))
+        _GEN["dex"] = G.build(G.Dex(classes))
+    return _GEN["dex"]
+
+
+def raw_bytes(repo, name):
+    if name == GEN:
+        return gen_dex()
+    path = os.path.join(repo, "tests", "data", "APK", name)
+    if name.endswith(".apk"):
+        with zipfile.ZipFile(path) as z:
+            return z.read("classes.dex")
+    with open(path, "rb") as f:
+        return f.read()
+
+
 def load(repo, name):
     """DEX + Analysis for one corpus file; one big file cached per process."""
     if name in _CACHE:
         return _CACHE[name]
     from androguard.core import dex
     from androguard.core.analysis.analysis import Analysis
-    path = os.path.join(repo, "tests", "data", "APK", name)
-    if name.endswith(".apk"):
-        with zipfile.ZipFile(path) as z:
-            raw = z.read("classes.dex")
-    else:
-        with open(path, "rb") as f:
-            raw = f.read()
+    raw = raw_bytes(repo, name)
     import gc
     if len(raw) > 100000:         # keep at most one big file per process
         stale = [k for k in _CACHE if _CACHE[k][2] > 100000]
@@ -253,12 +402,12 @@ _SIZES = {}
 
 
 def all_sizes(repo):
-    todo = [n for n in DEXES if (repo, n) not in _SIZES]
+    todo = [n for n in CORPORA if (repo, n) not in _SIZES]
     if todo:
         out = _run_child(repo, {"op": "sizes", "dexes": todo})
         for n in todo:
             _SIZES[(repo, n)] = out[n]
-    return {n: _SIZES[(repo, n)] for n in DEXES}
+    return {n: _SIZES[(repo, n)] for n in CORPORA}
 
 
 def slices(sizes, per):
@@ -376,13 +525,7 @@ def _child_main():
         from androguard.core import dex
         out = {}
         for name in job["dexes"]:
-            path = os.path.join(repo, "tests", "data", "APK", name)
-            if name.endswith(".apk"):
-                with zipfile.ZipFile(path) as z:
-                    raw = z.read("classes.dex")
-            else:
-                with open(path, "rb") as f:
-                    raw = f.read()
+            raw = raw_bytes(repo, name)
             out[name] = [len(c.get_methods()) for c in dex.DEX(raw).get_classes()]
     elif op == "slice":
         out = child_slice(repo, job["dex"], job.get("lo"), job.get("hi"), job.get("texts", False), job.get("only"))
@@ -657,6 +800,9 @@ def space(ctx):
     sizes = all_sizes(ctx.repo)
     return {
         "dex_files": DEXES,
+        "generated_corpus": {"tierC_programs_of_C21": len([x for x in gen_programs() if x[1] == "tierC"]),
+                             "tierC_skeletons_with_all_transpositions": len([x for x in gen_programs() if x[0].startswith("cr_")]),
+                             "nested_loop_family": "%d = outer kind x inner kind %r x extra back edges to the outer header %r x break 0/1; all transpositions" % (len([x for x in gen_programs() if x[1] == "nested"]), NEST_KINDS, NEST_EXTRA)},
         "classes": sum(len(v) for v in sizes.values()),
         "methods": sum(sum(v) for v in sizes.values()),
         "global_family": ["default"] + [a for a, _ in family(ctx.thorough)] + ["default(repeat)"],
@@ -675,10 +821,10 @@ def space(ctx):
 def shards(ctx):
     sizes = all_sizes(ctx.repo)
     out = []
-    big = [n for n in DEXES if sum(sizes[n]) > 1000]
+    big = [n for n in CORPORA if sum(sizes[n]) > 1000]
     # S: one child per (part, seed); a part is half of a big file (the child has to parse the file) or all small files
     sd = seeds(ctx)
-    parts = [[(n, 0, len(sizes[n])) for n in DEXES if n not in big]]
+    parts = [[(n, 0, len(sizes[n])) for n in CORPORA if n not in big]]
     for name in big:
         total, half, k = sum(sizes[name]), 0, 0
         while k < len(sizes[name]) and (half < total // 2 or total < 5000):
@@ -689,10 +835,10 @@ def shards(ctx):
     for g in range(0, len(sd), 4):
         for part in parts[1:] + parts[:1]:
             out.append(("S", part, sd[g:g + 4]))
-    for name in big + [n for n in DEXES if n not in big]:
-        for lo, hi in slices(sizes[name], T_SLICE):
+    for name in big + [n for n in CORPORA if n not in big]:
+        for lo, hi in slices(sizes[name], 25 if name == GEN else T_SLICE):      # generated: all transpositions
             out.append(("T", name, lo, hi))
-    for name in DEXES:
+    for name in CORPORA:
         for lo, hi in slices(sizes[name], G_SLICE):
             out.append(("G", name, lo, hi))
     hc = _hcorpus(ctx.repo)
@@ -761,6 +907,8 @@ def _run_G(ctx, acc, cands, name, lo, hi):
         ids = [mid(c, i, m) for i, m in enumerate(meths)]
         acc.count("classes")
         acc.count("methods", len(meths))
+        if name == GEN:
+            acc.count("generated_methods", len(meths))
         acc.transitions += len(meths)
         acc.traces += 1
         acc.state((name, "class", str(c.get_name()), th(ct0)))
@@ -800,6 +948,8 @@ def _run_G(ctx, acc, cands, name, lo, hi):
 def _run_T(ctx, acc, cands, name, lo, hi):
     d, dx, _ = load(ctx.repo, name)
     tmax = T_MAX_THOROUGH if ctx.thorough else T_MAX_QUICK
+    if name == GEN:
+        tmax = 10 ** 9                # generated methods are small: every transposition
     classes = d.get_classes()
     sampled = False
     for ci in range(lo, hi):
@@ -819,6 +969,9 @@ def _run_T(ctx, acc, cands, name, lo, hi):
             if n < 2:
                 continue
             acc.count("methods_with_hashed_objects")
+            if name == GEN and not ctx.thorough and str(m.get_name()).startswith("c_"):
+                acc.count("generated_tierC_programs_with_global_family_only")      # same skeleton as a 'cr_' program
+                continue
             if n > tmax:
                 acc.count("methods_over_transposition_bound")
                 acc.note("transpositions only for methods with <= %d really hashed objects (%s tier, stated in space); "
@@ -987,5 +1140,7 @@ def finalize(ctx, acc):
         acc.harness_error("degenerate: only %d methods hash >= 2 owned objects" % e.get("methods_with_hashed_objects", 0))
     if e.get("transpositions", 0) < 1000 or e.get("hashseed_runs", 0) < 7 or e.get("history_pairs_adjacent_in_chain", 0) < 2500 or e.get("history_pairs_exact", 0) < 400:
         acc.harness_error("degenerate space: %r" % (e,))
+    if e.get("generated_methods", 0) != len(gen_programs()):
+        acc.harness_error("generated corpus not (fully) explored: %r of %d" % (e.get("generated_methods"), len(gen_programs())))
     if len(acc.states) < e.get("methods", 0) // 2:
         acc.harness_error("fewer observed states than methods/2")
